@@ -278,6 +278,9 @@ func RunCase(t *testing.T, bind *Binding, c *Case, tmp string) ([]model.Violatio
 		obs = append(obs, Run(t, bind, sp))
 	}
 	vs := model.Judge(c.Property, c.Prog, EffectiveCfg(c.Prog), obs)
+	if d := os.Getenv("VERIF_DUMP"); d != "" {
+		dumpRuns(d, c.Prog, obs, vs)
+	}
 	if twin := twinOf(c); twin != nil {
 		for i := range c.Specs {
 			fo := Run(t, bind, &RunSpec{SpecData: c.Specs[i], Prog: twin, TmpDir: tmp})
@@ -487,6 +490,14 @@ func dumpRuns(path string, p *sdl.Program, obs []*model.Obs, vs []model.Violatio
 		b, _ := json.Marshal(map[string]any{"prog": p.ID, "note": p.Note, "family": p.Family, "verdict": out.Verdict, "why": out.Why, "sched": o.Sched, "faults": o.Faults,
 			"runErr": o.RunErr, "err": o.ErrText, "panic": o.Panic, "stk": o.PanicStk, "steps": o.Steps, "picks": len(o.Picks), "nviol": len(vs)})
 		f.Write(append(b, '\n'))
+		if os.Getenv("VERIF_DUMP_EVENTS") != "" {
+			for _, e := range o.Events {
+				fmt.Fprintf(f, "  ev %d %s %s %s\n", e.Seq, e.Kind, e.Subj, e.Detail)
+			}
+			for _, c := range o.Reg {
+				fmt.Fprintf(f, "  reg %d %s %s err=%v\n", c.Seq, c.Op, c.Name, c.Err)
+			}
+		}
 	}
 }
 
